@@ -351,20 +351,35 @@ func checkC13(c *Ctx) {
 		var armed atomic.Bool
 		unhook := hookPrefix(root, func(point, arg string, _ int) {
 			if point == "scan.beforeRead" && arg == last && armed.CompareAndSwap(true, false) {
-				// (the scan has read a-first.json by now)
+				// (the scan has read a-first.json by now; the new content arrives by one rename)
+				tmp := filepath.Join(root, "staged-first.json")
 				if repair {
-					os.WriteFile(first, good("first"), 0o644)
+					os.WriteFile(tmp, good("first"), 0o644)
 				} else {
-					os.WriteFile(first, badContent, 0o644)
+					os.WriteFile(tmp, badContent, 0o644)
 				}
+				os.Rename(tmp, first)
 			}
 		})
 		defer unhook()
 		dirs := []string{anchor, d}
-		how := pickStr(r, "NewCache", "Configure")
+		how := pickStr(r, "NewCache", "Configure", "a rescan of the watcher", "a rescan of the watcher")
 		var a *autoCache
 		var err error
-		if how == "NewCache" {
+		if how == "a rescan of the watcher" {
+			a, err = newAutoCache(root, anchor, dirs)
+			if err == nil {
+				a.C.ListDevices()
+				armed.Store(true)
+				// one event (a file renamed into place) makes the watcher rescan; the change to
+				// a-first.json is made from inside that rescan, by renaming a staged file over it
+				must(os.WriteFile(filepath.Join(root, "trigger.json"), good("trigger"), 0o644))
+				must(os.Rename(filepath.Join(root, "trigger.json"), filepath.Join(d, "m-trigger.json")))
+				for i := 0; i < 400 && armed.Load(); i++ {
+					time.Sleep(25 * time.Millisecond)
+				}
+			}
+		} else if how == "NewCache" {
 			armed.Store(true)
 			a, err = newAutoCache(root, anchor, dirs)
 		} else {
